@@ -195,3 +195,14 @@ int main(){ const double T=%s, W=%s; const int R=%d; Compressor c(48000, T, R, W
     if(std::fabs(gdb-want) > 1e-6){ if(!bad) std::printf("level %%g dB: gain %%g dB, curve %%g dB\\n", lvl, gdb, want); ++bad; } }
   return bad?1:0; }
 ''' % (T, W, R)
+
+
+# ---- native demonstrations of recorded findings (known_findings.txt, kind native=...) ----
+def tuner_fractional():
+    return HDR + '''
+// C14: Tuner multiplies sample k of the stream by exp(2*pi*i*f*k/fs) for every k, integer f or not
+int main(){ const int fs=8; const double f=0.5; Tuner t(fs, f); arr_cmplx x(3*fs); for(int i=0;i<x.size();++i) x[i]=cmplx_t{1,0};
+  auto y=t.process(x); int bad=0;
+  for(int k=0;k<x.size();++k){ double ph=2*pi*f*k/fs; if(std::fabs(y[k].re-std::cos(ph))>1e-9||std::fabs(y[k].im-std::sin(ph))>1e-9){ if(!bad) std::printf("sample %d: (%g,%g) expected (%g,%g)\\n",k,y[k].re,y[k].im,std::cos(ph),std::sin(ph)); ++bad; } }
+  return bad?1:0; }
+'''
